@@ -111,6 +111,52 @@ pub fn drive_end(strat: Strat, mode: BatchMode, blocks: &[u64], script: Vec<E<i6
     })
 }
 
+/// predicates of the route cases: `v mod m == r` (fn items: the router takes fn pointers)
+macro_rules! modp { ($name:ident, $m:expr, $r:expr) => { fn $name(v: &i64) -> bool { v.rem_euclid($m) == $r } }; }
+modp!(p2_0, 2, 0); modp!(p2_1, 2, 1); modp!(p3_0, 3, 0); modp!(p3_1, 3, 1); modp!(p5_0, 5, 0); modp!(p7_3, 7, 3); modp!(p1_0, 1, 0); modp!(p4_9, 4, 9);
+pub const ROUTE_PREDS: [(i64, i64, fn(&i64) -> bool); 8] =
+    [(2, 0, p2_0), (2, 1, p2_1), (3, 0, p3_0), (3, 1, p3_1), (5, 0, p5_0), (7, 3, p7_3), (1, 0, p1_0), (4, 9, p4_9)];
+
+/// Drive the real `RoutingEnd` (one downstream block with one replica per route) under the
+/// mock clock; returns, per route, the batches that arrived.
+pub fn drive_route(preds: &[usize], mode: BatchMode, script: Vec<E<i64>>, clock: &Clock) -> Result<Vec<Vec<Vec<E<i64>>>>, String> {
+    let preds = preds.to_vec();
+    let clock = clock.clone();
+    catch(move || {
+        let env = StreamContext::new(RuntimeConfig::local(1).unwrap());
+        let stream = env.stream(Script::new(script));
+        let id = verif::block_id(&stream);
+        let mut net = Net::new(id);
+        let receivers: Vec<Vec<NetReceiver<i64>>> = (0..preds.len()).map(|i| net.add_next::<i64>(10 + i as u64, 1)).collect();
+        let routes: Vec<(u64, fn(&i64) -> bool)> = preds.iter().enumerate().map(|(i, p)| (10 + i as u64, ROUTE_PREDS[*p].2)).collect();
+        let mut end = verif::route_chain(stream, routes, mode);
+        let ms = std::time::Duration::from_millis;
+        verif::set_mock_clock(Some(ms(clock.t0)));
+        end.setup(&mut net.metadata(mode));
+        let mut recv: Vec<Vec<Vec<E<i64>>>> = vec![vec![]; preds.len()];
+        let mut k = 0;
+        loop {
+            verif::set_mock_clock(Some(ms(*clock.times.get(k).unwrap_or(clock.times.last().unwrap_or(&clock.t0)))));
+            k += 1;
+            let e = end.next();
+            for (i, rs) in receivers.iter().enumerate() {
+                recv[i].extend(rs[0].drain());
+            }
+            if matches!(e, E::Terminate) {
+                break;
+            }
+        }
+        verif::set_mock_clock(None);
+        recv
+    })
+}
+
+pub fn rcase_term(preds: &[usize], lmode: LMode, script: &[E<i64>], recv: &Vec<Vec<Vec<E<i64>>>>, clock: &Clock) -> String {
+    let mods: Vec<String> = preds.iter().map(|p| format!("({}, {})", ROUTE_PREDS[*p].0, ROUTE_PREDS[*p].1)).collect();
+    let input: Vec<String> = script.iter().map(|e| e.coq()).collect();
+    format!("(Build_rcase {} [{}] [{}] {} {})", lmode.coq(), mods.join("; "), input.join("; "), recv.coq(), clock.coq())
+}
+
 fn strat_coq(s: Strat) -> &'static str {
     match s { Strat::OnlyOne => "SOnlyOne", Strat::Random => "SRandom", Strat::GroupBy => "SGroupBy", Strat::All => "SAll" }
 }
